@@ -4,7 +4,7 @@ import (
 	"crypto/sha256"
 	"encoding/hex"
 	"fmt"
-	"strings"
+	"strconv"
 
 	"github.com/golang/protobuf/proto"
 	"github.com/openacid/slim/trie"
@@ -22,13 +22,18 @@ type Unit struct {
 	Limit   int    `json:"lim,omitempty"`    // callback stops after Limit entries / number of next() calls
 	Nested  string `json:"nested,omitempty"` // re-entrant call issued from inside the callback: get | search | scan | iter
 	Spread  bool   `json:"spread,omitempty"` // iterator whose next() calls are spread among the following units of its task
+
+	ckey string // cached key(), computed in the main goroutine before tasks start
 }
 
 var unitKinds = []string{"get", "getid", "rangeget", "search", "geti8", "geti16", "geti32", "geti64",
 	"scanfrom", "scanfromto", "iter", "stat", "string", "marshal", "protosize", "protomarshal"}
 
 func (u *Unit) key() string {
-	return fmt.Sprintf("%s|%x|%x|%v%v%v|%d|%s", u.Kind, u.Q, u.Q2, u.Incl, u.Incl2, u.WithVal, u.Limit, u.Nested)
+	if u.ckey == "" {
+		u.ckey = fmt.Sprintf("%s|%x|%x|%v%v%v|%d|%s", u.Kind, u.Q, u.Q2, u.Incl, u.Incl2, u.WithVal, u.Limit, u.Nested)
+	}
+	return u.ckey
 }
 
 func (u *Unit) short() string {
@@ -39,23 +44,130 @@ func (u *Unit) short() string {
 	return fmt.Sprintf("%s(%q)", u.Kind, q)
 }
 
-func fmtVal(v interface{}) string {
+// obuf builds canonical outcome strings WITHOUT the fmt package: fmt recycles
+// its printers through a sync.Pool, and in the controlled race lane a pooled
+// object travelling between tasks would create happens-before edges between
+// them (and sync.Pool drops objects at random in race builds). Everything a
+// task does between two calls into the code under test must be free of
+// synchronisation.
+type obuf struct{ b []byte }
+
+const hexdigits = "0123456789abcdef"
+
+func (o *obuf) s(x string) { o.b = append(o.b, x...) }
+func (o *obuf) c(x byte)   { o.b = append(o.b, x) }
+func (o *obuf) i(x int64)  { o.b = strconv.AppendInt(o.b, x, 10) }
+func (o *obuf) u(x uint64) { o.b = strconv.AppendUint(o.b, x, 10) }
+func (o *obuf) t(x bool) {
+	if x {
+		o.s("true")
+	} else {
+		o.s("false")
+	}
+}
+func (o *obuf) hex(x []byte) {
+	for _, c := range x {
+		o.b = append(o.b, hexdigits[c>>4], hexdigits[c&15])
+	}
+}
+func (o *obuf) hexOrNil(x []byte) {
+	if x == nil {
+		o.s("nil")
+		return
+	}
+	o.hex(x)
+}
+func (o *obuf) String() string { return string(o.b) }
+
+// val appends a canonical rendering of a decoded value.
+func (o *obuf) val(v interface{}) {
 	switch x := v.(type) {
 	case nil:
-		return "nil"
+		o.s("nil")
 	case []byte:
-		return "b:" + hex.EncodeToString(x)
+		o.s("b:")
+		o.hex(x)
+	case string:
+		o.s("s:")
+		o.b = strconv.AppendQuote(o.b, x)
+	case int8:
+		o.s("int8:")
+		o.i(int64(x))
+	case int16:
+		o.s("int16:")
+		o.i(int64(x))
+	case int32:
+		o.s("int32:")
+		o.i(int64(x))
+	case int64:
+		o.s("int64:")
+		o.i(x)
+	case int:
+		o.s("int:")
+		o.i(int64(x))
+	case uint16:
+		o.s("uint16:")
+		o.u(uint64(x))
+	case uint32:
+		o.s("uint32:")
+		o.u(uint64(x))
+	case uint64:
+		o.s("uint64:")
+		o.u(x)
+	case pairLE:
+		o.s("pairLE:{")
+		o.u(uint64(x.A))
+		o.c(' ')
+		o.i(int64(x.B))
+		o.c(' ')
+		o.u(uint64(x.C[0]))
+		o.c(' ')
+		o.u(uint64(x.C[1]))
+		o.c('}')
+	default:
+		o.s(fmt.Sprintf("%T:%#v", v, v))
 	}
-	return fmt.Sprintf("%T:%#v", v, v)
+}
+
+func fmtVal(v interface{}) string {
+	var o obuf
+	o.val(v)
+	return o.String()
+}
+
+func (o *obuf) digest(b []byte) {
+	h := sha256.Sum256(b)
+	o.s("len=")
+	o.i(int64(len(b)))
+	o.s(" sha=")
+	o.hex(h[:12])
 }
 
 func digest(b []byte) string {
-	h := sha256.Sum256(b)
-	return fmt.Sprintf("len=%d sha=%x", len(b), h[:12])
+	var o obuf
+	o.digest(b)
+	return o.String()
+}
+
+func (o *obuf) err(e error) {
+	if e == nil {
+		o.s(" err=<nil>")
+		return
+	}
+	o.s(" err=")
+	o.s(e.Error())
 }
 
 func panicStr(r interface{}) string {
-	s := fmt.Sprint(r)
+	var s string
+	switch x := r.(type) {
+	case error:
+		s = x.Error()
+	case string:
+		s = x
+	default:
+		s = fmt.Sprint(r)
+	}
 	if len(s) > 200 {
 		s = s[:200]
 	}
@@ -66,7 +178,7 @@ func panicStr(r interface{}) string {
 // its step cap; it must not be swallowed as an ordinary panic outcome.
 type abortUnit struct{ why string }
 
-func recoverInto(out *string, sb *strings.Builder) {
+func recoverInto(out *string, sb *obuf) {
 	if r := recover(); r != nil {
 		if a, ok := r.(abortUnit); ok {
 			*out = sb.String() + "ABORT:" + a.why
@@ -79,38 +191,57 @@ func recoverInto(out *string, sb *strings.Builder) {
 // run executes the unit to completion on st. y (may be nil) is a harness-level
 // yield offered inside callbacks and between next() calls.
 func (u *Unit) run(st *trie.SlimTrie, y func()) (out string) {
-	var sb strings.Builder
+	var sb obuf
 	defer recoverInto(&out, &sb)
 	q := string(u.Q)
 	switch u.Kind {
 	case "get":
 		v, f := st.Get(q)
-		fmt.Fprintf(&sb, "%s,%v", fmtVal(v), f)
+		sb.val(v)
+		sb.c(',')
+		sb.t(f)
 	case "getid":
-		fmt.Fprintf(&sb, "%d", st.GetID(q))
+		sb.i(int64(st.GetID(q)))
 	case "rangeget":
 		v, f := st.RangeGet(q)
-		fmt.Fprintf(&sb, "%s,%v", fmtVal(v), f)
+		sb.val(v)
+		sb.c(',')
+		sb.t(f)
 	case "search":
 		l, e, r := st.Search(q)
-		fmt.Fprintf(&sb, "%s,%s,%s", fmtVal(l), fmtVal(e), fmtVal(r))
+		sb.val(l)
+		sb.c(',')
+		sb.val(e)
+		sb.c(',')
+		sb.val(r)
 	case "geti8":
 		v, f := st.GetI8(q)
-		fmt.Fprintf(&sb, "%d,%v", v, f)
+		sb.i(int64(v))
+		sb.c(',')
+		sb.t(f)
 	case "geti16":
 		v, f := st.GetI16(q)
-		fmt.Fprintf(&sb, "%d,%v", v, f)
+		sb.i(int64(v))
+		sb.c(',')
+		sb.t(f)
 	case "geti32":
 		v, f := st.GetI32(q)
-		fmt.Fprintf(&sb, "%d,%v", v, f)
+		sb.i(int64(v))
+		sb.c(',')
+		sb.t(f)
 	case "geti64":
 		v, f := st.GetI64(q)
-		fmt.Fprintf(&sb, "%d,%v", v, f)
+		sb.i(v)
+		sb.c(',')
+		sb.t(f)
 	case "scanfrom", "scanfromto":
 		n := 0
 		cb := func(k, v []byte) bool {
 			// the slices are temporaries: copy at once
-			fmt.Fprintf(&sb, "%x=%s;", k, fmtBytesOrNil(v))
+			sb.hex(k)
+			sb.c('=')
+			sb.hexOrNil(v)
+			sb.c(';')
 			n++
 			if y != nil {
 				y()
@@ -123,7 +254,8 @@ func (u *Unit) run(st *trie.SlimTrie, y func()) (out string) {
 		} else {
 			st.ScanFromTo(q, u.Incl, string(u.Q2), u.Incl2, u.WithVal, cb)
 		}
-		fmt.Fprintf(&sb, "n=%d", n)
+		sb.s("n=")
+		sb.i(int64(n))
 	case "iter":
 		it := u.open(st)
 		for it.left > 0 {
@@ -134,18 +266,37 @@ func (u *Unit) run(st *trie.SlimTrie, y func()) (out string) {
 		}
 		return it.outcome()
 	case "stat":
-		fmt.Fprintf(&sb, "%+v", *st.Stat())
+		x := st.Stat()
+		sb.s("{LevelCnt:")
+		sb.i(int64(x.LevelCnt))
+		sb.s(" Levels:[")
+		for _, l := range x.Levels {
+			sb.c('{')
+			sb.i(int64(l.Total))
+			sb.c(' ')
+			sb.i(int64(l.Inner))
+			sb.c(' ')
+			sb.i(int64(l.Leaf))
+			sb.c('}')
+		}
+		sb.s("] KeyCnt:")
+		sb.i(int64(x.KeyCnt))
+		sb.s(" NodeCnt:")
+		sb.i(int64(x.NodeCnt))
+		sb.c('}')
 	case "string":
 		s := st.String()
-		sb.WriteString(digest([]byte(s)))
+		sb.digest([]byte(s))
 	case "marshal":
 		b, err := st.Marshal()
-		fmt.Fprintf(&sb, "%s err=%v", digest(b), err)
+		sb.digest(b)
+		sb.err(err)
 	case "protosize":
-		fmt.Fprintf(&sb, "%d", proto.Size(st))
+		sb.i(int64(proto.Size(st)))
 	case "protomarshal":
 		b, err := proto.Marshal(st)
-		fmt.Fprintf(&sb, "%s err=%v", digest(b), err)
+		sb.digest(b)
+		sb.err(err)
 	default:
 		panic("unknown unit kind " + u.Kind)
 	}
@@ -160,27 +311,46 @@ func fmtBytesOrNil(b []byte) string {
 }
 
 // nested issues a re-entrant call from inside a scan callback.
-func (u *Unit) nested(st *trie.SlimTrie, sb *strings.Builder, k []byte, y func()) {
+func (u *Unit) nested(st *trie.SlimTrie, sb *obuf, k []byte, y func()) {
 	switch u.Nested {
 	case "":
 	case "get":
 		v, f := st.Get(string(k))
-		fmt.Fprintf(sb, "[%s,%v]", fmtVal(v), f)
+		sb.c('[')
+		sb.val(v)
+		sb.c(',')
+		sb.t(f)
+		sb.c(']')
 	case "search":
 		l, e, r := st.Search(string(k) + "\x00")
-		fmt.Fprintf(sb, "[%s,%s,%s]", fmtVal(l), fmtVal(e), fmtVal(r))
+		sb.c('[')
+		sb.val(l)
+		sb.c(',')
+		sb.val(e)
+		sb.c(',')
+		sb.val(r)
+		sb.c(']')
 	case "scan":
 		m := 0
 		st.ScanFrom(string(k), false, u.WithVal, func(k2, v2 []byte) bool {
-			fmt.Fprintf(sb, "[%x=%s]", k2, fmtBytesOrNil(v2))
+			sb.c('[')
+			sb.hex(k2)
+			sb.c('=')
+			sb.hexOrNil(v2)
+			sb.c(']')
 			m++
 			return m < 2
 		})
 	case "iter":
 		nx := st.NewIter(string(k), true, false)
 		k2, _ := nx()
+		k2 = append([]byte{}, k2...)
 		k3, _ := nx()
-		fmt.Fprintf(sb, "[%x,%x]", k2, k3)
+		sb.c('[')
+		sb.hex(k2)
+		sb.c(',')
+		sb.hex(k3)
+		sb.c(']')
 	}
 }
 
@@ -189,7 +359,7 @@ type iterState struct {
 	u    *Unit
 	next trie.NextRaw
 	left int
-	sb   strings.Builder
+	sb   obuf
 	dead bool
 }
 
@@ -201,15 +371,15 @@ func (u *Unit) open(st *trie.SlimTrie) (it *iterState) {
 	defer func() {
 		if r := recover(); r != nil {
 			if a, ok := r.(abortUnit); ok {
-				it.sb.WriteString("ABORT:" + a.why)
+				it.sb.s("ABORT:" + a.why)
 			} else {
-				it.sb.WriteString(panicStr(r))
+				it.sb.s(panicStr(r))
 			}
 			it.dead, it.left = true, 0
 		}
 	}()
 	it.next = st.NewIter(string(u.Q), u.Incl, u.WithVal)
-	it.sb.WriteString("open;")
+	it.sb.s("open;")
 	return it
 }
 
@@ -222,19 +392,24 @@ func (it *iterState) step() {
 	defer func() {
 		if r := recover(); r != nil {
 			if a, ok := r.(abortUnit); ok {
-				it.sb.WriteString("ABORT:" + a.why)
+				it.sb.s("ABORT:" + a.why)
 			} else {
-				it.sb.WriteString(panicStr(r))
+				it.sb.s(panicStr(r))
 			}
 			it.dead, it.left = true, 0
 		}
 	}()
 	k, v := it.next()
 	if k == nil {
-		fmt.Fprintf(&it.sb, "end,%s;", fmtBytesOrNil(v))
+		it.sb.s("end,")
+		it.sb.hexOrNil(v)
+		it.sb.c(';')
 		return
 	}
-	fmt.Fprintf(&it.sb, "%x=%s;", k, fmtBytesOrNil(v))
+	it.sb.hex(k)
+	it.sb.c('=')
+	it.sb.hexOrNil(v)
+	it.sb.c(';')
 }
 
 func (it *iterState) outcome() string { return it.sb.String() }
